@@ -10,7 +10,7 @@ impl Method for Momentum {
 	type Output = ValueType;
 	open spec fn inv(&self) -> bool { self.window.wf() && self.window.cap() >= 1 }
 	open spec fn rejects(parameters: PeriodType) -> bool { parameters == 0 }
-	open spec fn new_req(parameters: PeriodType, initial_value: &ValueType) -> bool { parameters < PeriodType::MAX }
+	open spec fn new_req(parameters: PeriodType, initial_value: &ValueType) -> bool { true }
 	open spec fn fresh(parameters: PeriodType, initial_value: &ValueType, s: &Self) -> bool {
 		s.window.view() =~= konst(parameters as nat, *initial_value)
 	}
@@ -39,7 +39,7 @@ impl Method for Derivative {
 		self.window.wf() && self.window.cap() >= 1 && self.divider@ * (self.window.cap() as real) == 1real
 	}
 	open spec fn rejects(parameters: PeriodType) -> bool { parameters == 0 }
-	open spec fn new_req(parameters: PeriodType, initial_value: &ValueType) -> bool { parameters < PeriodType::MAX }
+	open spec fn new_req(parameters: PeriodType, initial_value: &ValueType) -> bool { true }
 	open spec fn fresh(parameters: PeriodType, initial_value: &ValueType, s: &Self) -> bool {
 		s.window.view() =~= konst(parameters as nat, *initial_value)
 	}
@@ -80,7 +80,7 @@ impl Method for RateOfChange {
 	type Output = ValueType;
 	open spec fn inv(&self) -> bool { self.0.wf() && self.0.cap() >= 1 }
 	open spec fn rejects(parameters: PeriodType) -> bool { parameters == 0 }
-	open spec fn new_req(parameters: PeriodType, initial_value: &ValueType) -> bool { parameters < PeriodType::MAX }
+	open spec fn new_req(parameters: PeriodType, initial_value: &ValueType) -> bool { true }
 	open spec fn fresh(parameters: PeriodType, initial_value: &ValueType, s: &Self) -> bool {
 		s.0.view() =~= konst(parameters as nat, *initial_value)
 	}
@@ -111,7 +111,7 @@ where
 	type Output = T;
 	open spec fn inv(&self) -> bool { self.0.wf() && self.0.cap() >= 1 }
 	open spec fn rejects(parameters: PeriodType) -> bool { parameters == 0 }
-	open spec fn new_req(parameters: PeriodType, initial_value: &T) -> bool { parameters < PeriodType::MAX }
+	open spec fn new_req(parameters: PeriodType, initial_value: &T) -> bool { true }
 	open spec fn fresh(parameters: PeriodType, initial_value: &T, s: &Self) -> bool {
 		s.0.cap() == parameters as int && forall|i: int| 0 <= i < parameters as int ==> cloned_twice(*initial_value, #[trigger] s.0.view()[i])
 	}
@@ -143,7 +143,7 @@ impl Method for Integral {
 		&&& (self.window.cap() > 0 ==> self.value@ == sum(self.window.view()))
 	}
 	open spec fn rejects(parameters: PeriodType) -> bool { false }
-	open spec fn new_req(parameters: PeriodType, initial_value: &ValueType) -> bool { parameters < PeriodType::MAX }
+	open spec fn new_req(parameters: PeriodType, initial_value: &ValueType) -> bool { true }
 	open spec fn fresh(parameters: PeriodType, initial_value: &ValueType, s: &Self) -> bool {
 		&&& s.window.view() =~= konst(parameters as nat, *initial_value)
 		&&& s.value@ == initial_value@ * (parameters as real)
